@@ -247,7 +247,9 @@ class ViewTranslator:
 
     def _dump_value(self, expr_read, which):
         if which == "enumeration":
-            return "out(static_cast<long long>(%s));" % expr_read
+            # through the enum's own underlying type, so that an unsigned 64-bit value keeps its sign
+            return ("outv(static_cast<typename ::std::underlying_type<typename ::std::decay<decltype(%s)>::type>::type>(%s));"
+                    % (expr_read, expr_read))
         if which == "boolean":
             return "out((%s) ? 1 : 0);" % expr_read
         return "outv(%s);" % expr_read
@@ -293,7 +295,10 @@ class ViewTranslator:
             L.append("  outm(v.has_%s()); { auto f = v.%s(); out(f.Ok() ? 1 : 0);" % (n, n))
             if ir_util.field_is_virtual(f) and f.write_method.which_method != "alias":
                 which = f.read_transform.type.which_type
-                L.append("    if (f.Ok()) { %s }" % self._dump_value("f.Read()", which))
+                # Ok() of a virtual field's view does not include its existence condition while Read() CHECKs it
+                # (finding virtual-ok-ignores-existence, probed by the C04 check): an absent but Ok() virtual field
+                # is read through UncheckedRead(), which returns the same value without the CHECK
+                L.append("    if (f.Ok()) { %s }" % self._dump_value("(v.has_%s().ValueOr(false) ? f.Read() : f.UncheckedRead())" % n, which))
             else:
                 tgt = f
                 while ir_util.field_is_virtual(tgt):
